@@ -147,11 +147,13 @@ ActionDiff(ev) ==
                   \cup Views(post)
 
 PruneDiff(ev) ==
-  IF ev.outcome # "ok" THEN {"panic"}
+  IF ev.outcome # "ok" THEN {"panic", "prune_failed"}     \* an expiry that does not complete removed "exactly" nothing it should
   ELSE IF ~DistinctAddrs(ev.planes) THEN {"duplicate_record"}
   ELSE LET post == AsMap(ev.planes)
            keep == {a \in DOMAIN pre : a \in DOMAIN heard /\ now - heard[a] < ev.T}
        IN (IF DOMAIN post = keep THEN {} ELSE {"expired_set"})
+          \* C12's own clause: the set shrinks through expiry only - a record that was not due and is gone was lost
+          \cup (IF keep \subseteq DOMAIN post THEN {} ELSE {"removed_not_due"})
           \cup (IF \A a \in DOMAIN post \cap DOMAIN pre : post[a] = pre[a] THEN {} ELSE {"survivor_changed"})
 
 SerdeDiff(ev) ==
@@ -160,11 +162,11 @@ SerdeDiff(ev) ==
   ELSE IF AsMap(ev.planes) = pre THEN {} ELSE {"serde_roundtrip"}
 
 OwnerOf(f) ==
-  CASE f \in {"n", "added", "tracked_set", "isolation", "other_format_changed_state", "duplicate_record", "record_missing", "untouched"} -> "C12"
+  CASE f \in {"n", "added", "tracked_set", "isolation", "other_format_changed_state", "duplicate_record", "record_missing", "untouched", "removed_not_due"} -> "C12"
     [] f \in {"position", "changed_position"} -> "C13"
     [] f \in {"cs", "heading", "speed", "vrate", "altitude", "changed_cs", "changed_vel", "changed_track", "track", "dist_iff_pos", "all_position", "details", "details_missing",
               "display", "pos_without_pair"} -> "C14"
-    [] f \in {"expired_set", "survivor_changed", "readded_not_reported"} -> "C15"
+    [] f \in {"expired_set", "survivor_changed", "readded_not_reported", "prune_failed"} -> "C15"
     [] f \in {"serde_failed", "serde_roundtrip"} -> "C20"
     [] OTHER -> "C01"                                   \* panic
 
